@@ -179,7 +179,7 @@ func init() {
 			depth, bound := 2, 1
 			if tier == "thorough" {
 				depth, bound = 3, 1
-				items = allItems("C11", c11Oracle, []Op{{K: "get", B: 0}, {K: "get", B: 0}}, "incr-abort", "incr-abortdrop", "incr-getters", "incr-cancel")
+				items = allItems("C11", c11Oracle, []Op{{K: "get", B: 0}, {K: "get", B: 0}}, "incr-abort", "incr-abortdrop", "incr-getters", "cancel")
 			}
 			for _, sp := range c11Programs(depth) {
 				b := bound
